@@ -431,6 +431,15 @@ func (c *child) exec(plan *Plan) *Result {
 	}
 }
 
+// boostEnv: plans that are not exactly replayable get a longer exposure when
+// they are re-executed to confirm or replay a violation.
+func boostEnv(p Property, q *Plan) []string {
+	if ra, ok := p.(replayAttempter); ok && ra.ReplayAttempts(q) > 1 {
+		return []string{"VERIF_BURST_BOOST=20"}
+	}
+	return nil
+}
+
 // replayAttempter: how many attempts a plan may need to reproduce (1 = exact).
 type replayAttempter interface {
 	ReplayAttempts(p *Plan) int
@@ -807,7 +816,7 @@ func minimise(p Property, plan *Plan, res *Result) (*Plan, *Result, int) {
 	// state, and a candidate must not "reproduce" thanks to what an earlier
 	// candidate left behind in the same process.
 	once := func(q *Plan) *Result {
-		c, err := startChild(p, childOpts{})
+		c, err := startChild(p, childOpts{env: boostEnv(p, q)})
 		if err != nil {
 			return &Result{Verdict: "infra"}
 		}
@@ -845,8 +854,13 @@ func minimise(p Property, plan *Plan, res *Result) (*Plan, *Result, int) {
 			r := run(cand)
 			if r.Verdict == "violation" && r.Class == curRes.Class && r.Site == curRes.Site {
 				cur, curRes = cand, r
+				// the worker's narrowed plan (single cut / bit / write index / case)
+				// is adopted only if it reproduces on its own: the violation may
+				// need the cases that precede it within the plan
 				if r.Narrow != nil {
-					cur = r.Narrow
+					if r2 := run(r.Narrow); r2.Verdict == "violation" && r2.Class == curRes.Class && r2.Site == curRes.Site {
+						cur, curRes = r.Narrow, r2
+					}
 				}
 				steps++
 				progressed = true
@@ -945,7 +959,7 @@ func replayMain(path string) int {
 		tries = max(tries, ra.ReplayAttempts(rf.Plan))
 	}
 	for i := 0; i < tries; i++ {
-		c, err := startChild(p, childOpts{})
+		c, err := startChild(p, childOpts{env: boostEnv(p, rf.Plan)})
 		if err != nil {
 			fmt.Fprintln(os.Stderr, err)
 			return 2
